@@ -172,8 +172,21 @@ def barycentric(P, rep, rule="EXPR.barycentric"):
         top = resolve(ifs[0]["c"][0])
         then_rets = [z for z in F.walk(ifs[0]["c"][1]) if z.get("k") == "ReturnStmt" and z.get("c")]
         rejects = bool(then_rets) and all(sc(z["c"][0]).get("k") == "CXXBoolLiteralExpr" and sc(z["c"][0]).get("v") is False for z in then_rets)
+        def split_reject(c):
+            """the rejecting condition !A || !B ...: the accepting one is A && B ..."""
+            c = resolve(c)
+            if c.get("k") == "BinaryOperator" and c.get("op") == "||":
+                return split_reject(c["c"][0]) and split_reject(c["c"][1])
+            if c.get("k") == "UnaryOperator" and c.get("op") == "!":
+                split(c["c"][0])
+                return True
+            return False
         if top.get("k") == "UnaryOperator" and top.get("op") == "!" and rejects:
             split(top["c"][0])
+        elif top.get("k") == "BinaryOperator" and top.get("op") == "||" and rejects:
+            if not split_reject(top):
+                rep.unknown(rule, "in_triangle: rejecting condition `%s` is not a disjunction of negations" % norm.render(P, top)[:80])
+                conj = []
         else:
             split(top)
         margins = []       # expressions required to be >= 0
@@ -270,6 +283,25 @@ def barycentric(P, rep, rule="EXPR.barycentric"):
         inits = [xn for xn in C.walk() if xn.get("k") == "BinaryOperator" and xn.get("op") == "=" and R(xn["c"][0]) in ("minimum", "maximum", "this->minimum", "this->maximum")
                  and R(xn["c"][1]) == "values_at_points.first[0]"]
         okm = okm and len(inits) == 2
+    if not okm and not loops:
+        # the standard algorithms over the whole value list: minimum = *std::min_element(V.begin(), V.end()), maximum likewise
+        nl_ = norm.naming_locals(P, C)
+        Rs = lambda e: norm.render(P, e, nocast=True, subst=nl_).replace(" ", "")
+        got = {}
+        for xn in C.walk():
+            if xn.get("k") == "BinaryOperator" and xn.get("op") == "=" and R(xn["c"][0]) in ("minimum", "maximum", "this->minimum", "this->maximum"):
+                t_ = Rs(xn["c"][1])
+                m_ = re.match(r"^\*?\(?\*?std::(min|max)_element\((.*)\.begin\(\),(.*)\.end\(\)\)\)?$", t_)
+                if m_ and m_.group(2) == m_.group(3) and m_.group(2).endswith("values_at_points.first"):
+                    got[R(xn["c"][0]).replace("this->", "")] = m_.group(1)
+        if got == {"minimum": "min", "maximum": "max"}:
+            rep.ok(rule, "minimum / maximum = *std::min_element / *std::max_element over all nodal values", C.loc, C.qn)
+            return
+        if got:
+            pass
+        else:
+            rep.unknown(rule, "Surface minimum/maximum: neither the loop over values_at_points.first nor std::min_element / std::max_element over it")
+            return
     if okm:
         rep.ok(rule, "minimum / maximum range over all nodal values", C.nloc(loops[0]), C.qn)
     else:
